@@ -133,20 +133,28 @@ def _run_unit(modname, unit_name, tier, seed):
     except Exception:
         return res
     t0 = time.time()
+    followed = None
     for m in maps:
         _interp.ALPHA = m
         try:
             r2 = _run_unit_once(modname, unit_name, tier, seed)
         finally:
             _interp.ALPHA = {}
+        desc = "; ".join(f"{q.rsplit('.', 1)[-1]}: " + ", ".join(f"{n}->{o}" for n, o in mm.items()) for q, mm in sorted(m.items()))
         if _clean(r2):
-            desc = "; ".join(f"{q.rsplit('.', 1)[-1]}: " + ", ".join(f"{n}->{o}" for n, o in mm.items()) for q, mm in sorted(m.items()))
             r2.setdefault("notes", []).append("verified on an alpha-equivalent copy (locals renamed back to the names the sidecar contract "
                                               f"was written for): {desc}")
             r2["seconds"] += res.get("seconds", 0.0)
             return r2
+        if followed is None and not r2.get("crashed") and not r2.get("unsupported") and r2.get("obligations"):
+            r2.setdefault("notes", []).append(f"obligations generated on an alpha-equivalent copy (the contract could not follow the renamed locals): {desc}")
+            followed = r2
         if time.time() - t0 > 600:
             break
+    # no renaming verifies: if the first attempt could not even follow the code (crash / outside the subset) but a renamed copy could,
+    # the obligations that fail there (with their counter-models) are the more informative verdict
+    if followed is not None and (res.get("crashed") or res.get("unsupported")):
+        return followed
     return res
 
 
